@@ -1394,6 +1394,8 @@ func main() {
 			decisionFunc("driver/network/sendcommand.go", "Driver.SendCommand"),
 			decisionFunc("driver/network/sendcommands.go", "Driver.SendCommands"),
 			decisionFunc("driver/network/sendconfigs.go", "Driver.SendConfigs"))
+		fmt.Fprintf(&sw, "(* driver/network/acquirepriv.go Driver.AcquirePriv *)\nDefinition acquire_priv_code : list dstmt :=\n  %s.\n",
+			decisionFunc("driver/network/acquirepriv.go", "Driver.AcquirePriv"))
 		// the loops that apply an option list to an object (C19)
 		var ol []string
 		for _, lf := range [][2]string{{"driver/generic/driver.go", "NewDriver"}, {"driver/network/driver.go", "NewDriver"}, {"driver/netconf/driver.go", "NewDriver"},
